@@ -356,6 +356,16 @@ int cif_write_options_create(struct cif_write_opts_s **opts) {
  * following code nevertheless assumes all those things to be true.
  */
 #define BUFFER_SIZE  4096
+#ifdef CIF_API_VERIF
+/* Verification hook (off unless CIF_API_VERIF is defined): the byte read-buffer size becomes a variable (<= 4096) */
+size_t cif_verif_read_buffer_size = BUFFER_SIZE;
+extern unsigned long cif_verif_probe[16];
+#undef BUFFER_SIZE
+#define BUFFER_SIZE cif_verif_read_buffer_size
+#define VERIF_PROBE(i) (cif_verif_probe[(i)] += 1)
+#else
+#define VERIF_PROBE(i) ((void) 0)
+#endif
 int cif_parse(FILE *stream, struct cif_parse_opts_s *options, cif_tp **cifp) {
     FAILURE_HANDLING;
     unsigned char buffer[BUFFER_SIZE];
@@ -573,12 +583,15 @@ static ssize_t ustream_read_chars(void *char_source, UChar *dest, ssize_t count,
 
                 size_t bytes_read = fread(ustream->byte_buffer, 1, ustream->buffer_size, ustream->byte_stream);
 
+                VERIF_PROBE(8);
+
                 if (bytes_read < ustream->buffer_size) {
                     if (ferror(ustream->byte_stream) != 0) {
                         /* I/O error */
                         return -1;
                     } else {
                         /* end-of-file encountered */
+                        VERIF_PROBE(9);
                         ustream->eof_status = -1;
                     }
                 }
@@ -597,6 +610,7 @@ static ssize_t ustream_read_chars(void *char_source, UChar *dest, ssize_t count,
 
             /* catch conversion errors and end of data */
             if (icu_error_code == U_BUFFER_OVERFLOW_ERROR) {
+                VERIF_PROBE(10);
                 break;
             } else if (U_FAILURE(icu_error_code)) {
                 /* usually set via a callback from the converter; */
